@@ -453,7 +453,8 @@ func (s *Service) TrafficInfo() (*TrafficInfo, error) {
 	transfer := big.NewInt(0)
 	for _, traffic := range s.trafficPeers.trafficPeers {
 		cashed = new(big.Int).Add(cashed, traffic.retrieveChainTraffic)
-		transfer = new(big.Int).Add(transfer, traffic.retrieveChequeTraffic)
+		// as in AvailableBalance: everything owed, whether or not a cheque was issued for it yet
+		transfer = new(big.Int).Add(transfer, traffic.retrieveTraffic)
 		respTraffic.TotalSendTraffic = new(big.Int).Add(respTraffic.TotalSendTraffic, traffic.retrieveChequeTraffic)
 		respTraffic.ReceivedTraffic = new(big.Int).Add(respTraffic.ReceivedTraffic, traffic.transferChequeTraffic)
 	}
